@@ -2,6 +2,7 @@ import Driver.C02Mon
 import OidcModel.Generated.RPVerifier
 import OidcModel.Generated.VerifiersC02
 import OidcModel.Generated.ProviderC02
+import OidcModel.Generated.JwksDocC02
 open Kv Drv
 
 namespace Drv.C02
@@ -19,12 +20,50 @@ def remoteDecisive (cached served : List JWK) (j : JWS) : List JWK × Bool :=
     | .ok _ => (cached, false)
     | .error _ => if (if k.KeyID == "" && kid == "" then false else k.KeyID == kid) then (cached, false) else (served, true)
 
+/-- part 8: the oracles of the document parser as the line carries them: encoding/json on the top level (`doc.ok`, `doc.n` raw
+    entries), go-jose's per-key parser on raw entry `i` (`doc.<i>.v`; what it read: `doc.<i>.o.*`).  A raw entry is its position
+    and what the harness's own reading says it declares (`doc.<i>.h.*`). -/
+def docRaw (l : Line) : List C02JRaw :=
+  (List.range (nat l "doc.n")).map fun i =>
+    let q := "doc." ++ toString i ++ ".h."
+    { bytes := i,
+      pub := if bool l (q ++ "mat") then
+          some { KeyID := str l (q ++ "kid"), Use := str l (q ++ "use"), kty := parseKty (str l (q ++ "kty")), keyNo := nat l (q ++ "no") }
+        else none }
+
+def docOracle (l : Line) : C02JOracle :=
+  { jsonUnmarshal := fun _ _ => if bool l "doc.ok" then .ok { Keys := docRaw l } else .error "json: cannot unmarshal",
+    parseJWK := fun _ r =>
+      let q := "doc." ++ toString r.bytes ++ "."
+      if bool l (q ++ "v") then
+        .ok { KeyID := str l (q ++ "o.kid"), Use := str l (q ++ "o.use"), kty := parseKty (str l (q ++ "o.kty")), keyNo := nat l (q ++ "o.no") }
+      else .error "go-jose/go-jose: invalid JWK" }
+
+/-- the key list the REGENERATED `jsonWebKeySet.UnmarshalJSON` makes of the served document (a document it refuses: the download
+    fails, no key) -/
+def docKeys (l : Line) : List JWK :=
+  match GenC02J.jsonWebKeySetUnmarshalJSON 0 (docOracle l) {} { bytes := 0 } with
+  | .ok ks => ks.Keys
+  | .error _ => []
+
+/-- go-jose's reading of an entry it accepts is the harness's own reading of the same bytes (the oracle is faithful to the declared members) -/
+def docFaithful (l : Line) : Bool :=
+  (docRaw l).all fun r =>
+    match (docOracle l).parseJWK default r with
+    | .ok k => r.pub == some k
+    | .error _ => true
+
+/-- what a download in this call yields: the published key list (`cur.`), or - part 8 - what the regenerated parser makes of the
+    document published now -/
+def curKeys (l : Line) : List JWK := if has l "doc.n" then docKeys l else (parseKeySet l "cur.").keys
+
 def rpVerifier (l : Line) (t : Token) : Verifier :=
   let v := parseVerifier l
   if has l "stateful" then
     match t.jws with
-    | some j => { v with KeySet := { kind := .published, keys := (remoteDecisive (parseKeySet l "pre.").keys (parseKeySet l "cur.").keys j).1 } }
-    | none => { v with KeySet := parseKeySet l "cur." }
+    | some j => { v with KeySet := { kind := .published, keys := (remoteDecisive (parseKeySet l "pre.").keys (curKeys l) j).1 } }
+    | none => { v with KeySet := { kind := .published, keys := curKeys l } }
+  else if has l "doc.n" then { v with KeySet := { kind := .published, keys := docKeys l } }
   else v
 
 /-- downloads the model predicts for a call on a long-lived key set (none: not such a line) -/
@@ -33,7 +72,7 @@ def modelFetches (l : Line) (t : Token) : Option Nat :=
   match Hand.ParseToken 0 t, Hand.joseParseSigned t (Hand.toJoseSignatureAlgorithms (list l "v.algs")) with
   | .ok _, .ok j =>
     match j.Signatures with
-    | [_] => some (if (remoteDecisive (parseKeySet l "pre.").keys (parseKeySet l "cur.").keys j).2 then 1 else 0)
+    | [_] => some (if (remoteDecisive (parseKeySet l "pre.").keys (curKeys l) j).2 then 1 else 0)
     | _ => some 0
   | _, _ => some 0
 
@@ -178,7 +217,9 @@ def stepSt (st : FullSt) (l : Line) : FullSt × String :=
     | some n => n == nat l "o.fetches"
     | none => true
   -- accept / reject must coincide; error names are compared when the model names a sentinel
-  let agree := merged && fetchesOK && (!stable || (match m0 with
+  -- part 8: the two readings of the served document agree on every entry go-jose accepts
+  let docOK := !has l "doc.n" || (docFaithful l && bool l "doc.ok" == bool l "doc.h.ok")
+  let agree := merged && fetchesOK && docOK && (!stable || (match m0 with
     | .ok _ => obsS == "ok"
     | .error e => obsS != "ok" && obsS != "panic" && (!e.startsWith "Err" || obsS == "err:" ++ e)))
   (r0.2, s!"case={str l "case"} model={modelS} observed={obsS} monitor={showMon (monitorLine l)} agree={if agree then 1 else 0}")
